@@ -231,7 +231,7 @@ def run_child(sc, faults, rule_fault=None):
     return kind, msg, log, d, path, data, st0
 
 
-def inspect(sc, kind, msg, d, path, original, st0, fixed):
+def inspect(sc, kind, msg, d, path, original, st0, fixed, remove_faulted=False):
     """the invariant, read off the scratch directory"""
     out = []
     try:
@@ -249,7 +249,7 @@ def inspect(sc, kind, msg, d, path, original, st0, fixed):
         with open(path + ".bak", "rb") as f:
             if f.read() != original:
                 out.append(("backup_differs_from_original", ""))
-    if kind != "killed" and os.path.exists(path + ".tmp"):
+    if kind != "killed" and not remove_faulted and os.path.exists(path + ".tmp"):  # (if the removal itself is the injected failure nothing can remove it)
         out.append(("temporary_file_left_behind", kind))
     if sc["expect"] in ("parse_failure", "config_error"):
         if now != original or st.st_ino != st0.st_ino or st.st_mtime_ns != st0.st_mtime_ns:
@@ -279,7 +279,8 @@ def execute(item):
     faults = {int(k): tuple(v) for k, v in item.get("faults", {}).items()}
     kind, msg, log, d, path, original, st0 = run_child(sc, faults, item.get("rule_fault"))
     r.transitions = len(log)
-    bad = inspect(sc, kind, msg, d, path, original, st0, fixed)
+    names = {k: n for k, n, t in log}
+    bad = inspect(sc, kind, msg, d, path, original, st0, fixed, remove_faulted=any(names.get(k) == "os.remove" for k in faults))
     with open(path, "rb") as f:
         end = f.read()
     r.states.add(base.h64((kind, end == original, end == fixed, os.path.exists(path + ".tmp"), os.path.exists(path + ".bak"))))
